@@ -277,7 +277,7 @@ def coq_results(pid: str, header: str, case_terms: list[str], checker: str, shar
         body.append(";\n".join("  " + c for c in chunk))
         body.append("].")
         body.append(f"Definition results := List.map ({checker}) cases.")
-        body.append('Definition show (bs : list bool) : string := String.concat "" (List.map (fun b : bool => if b then "1" else "0") bs).')
+        body.append('Definition show (bs : list bool) : Coq.Strings.String.string := Coq.Strings.String.concat ""%string (List.map (fun b : bool => if b then "1"%string else "0"%string) bs).')
         body.append("Eval vm_compute in show results.")
         p = d / f"{tag}_{k // shard}.v"
         p.write_text("\n".join(body) + "\n")
